@@ -3048,3 +3048,71 @@ func ruleDepthCountersBalanced(c *eng.Ctx) {
 		c.Undec(R, "module#counters", token.NoPos, "no recursive function with a depth counter found")
 	}
 }
+
+// ---------------------------------------------------------------------------------------------------------------
+// R5.16 a base-85 group that does not fit four bytes is an error.
+
+// R5.16 [C05]
+func ruleBase85GroupRangeChecked(c *eng.Ctx) {
+	const R = "R5.16-BASE85-GROUP-RANGE"
+	c.Rule(R, "ASCII85Decode multiplies its group accumulator by 85 in a 64-bit type and compares the accumulated group with 2^32-1 (an error above it) before the bytes are taken out: five digits reach 85^5-1 > 2^32-1, a 32-bit accumulator wraps, and a group that encodes no four bytes then decodes to four wrong ones instead of an error", 1, 1)
+	for _, name := range []string{"internal/filters.ASCII85Decode", eng.PositivePkg + ".Base85Group"} {
+		fn := c.P.Func(name)
+		if fn == nil {
+			if !strings.Contains(name, eng.PositivePkg) {
+				c.Undec(R, name, token.NoPos, "anchor not found")
+			}
+			continue
+		}
+		n := 0
+		for _, h := range eng.Cluster(fn, 2) {
+			if h.Pkg != fn.Pkg {
+				continue
+			}
+			eng.Instrs(h, true, func(in ssa.Instruction) {
+				b, ok := in.(*ssa.BinOp)
+				if !ok || b.Op != token.MUL {
+					return
+				}
+				k, isC := eng.ConstInt(b.Y)
+				if !isC || k != 85 {
+					if k2, ok2 := eng.ConstInt(b.X); !ok2 || k2 != 85 {
+						return
+					}
+				}
+				n++
+				bt, _ := b.Type().Underlying().(*types.Basic)
+				wide := bt != nil && (bt.Kind() == types.Uint64 || bt.Kind() == types.Int64)
+				// the range test: a comparison of the accumulator (a phi fed by this product) with 4294967295
+				tested := false
+				eng.Instrs(in.Parent(), true, func(in2 ssa.Instruction) {
+					cmp, ok := in2.(*ssa.BinOp)
+					if !ok {
+						return
+					}
+					switch cmp.Op {
+					case token.GTR, token.GEQ, token.LSS, token.LEQ:
+					default:
+						return
+					}
+					for _, side := range []ssa.Value{cmp.X, cmp.Y} {
+						if kk, isK := eng.ConstInt(side); isK && (kk == 0xFFFFFFFF || kk == 0x100000000) {
+							tested = true
+						}
+					}
+				})
+				var bad []string
+				if !wide {
+					bad = append(bad, "the accumulator is "+b.Type().String()+", which wraps above 2^32-1")
+				}
+				if !tested {
+					bad = append(bad, "the accumulated group is never compared with 2^32-1")
+				}
+				c.Check(len(bad) == 0, R, fmt.Sprintf("%s#group@%s", eng.FuncName(in.Parent()), c.P.Pos(b.Pos())), b.Pos(), "64-bit accumulator with a range test", strings.Join(bad, "; ")+": a group above s8W-! decodes to wrong bytes instead of an error")
+			})
+		}
+		if n == 0 && !strings.Contains(name, eng.PositivePkg) {
+			c.Ok(R, name+"#group", fn.Pos(), "not evaluated: no multiplication by 85 found (the decoder is written another way)")
+		}
+	}
+}
